@@ -949,7 +949,13 @@ fn sim_case_with(case_seed: u64, rep: &mut Report, wal_path: Option<std::path::P
         rep.sample(json!({"mode": "sim", "case_seed": case_seed, "plan": plan_json(&plan), "trace": trace, "decisions": sim.obs.iter().map(|o| format!("{:?}", o.decision())).collect::<Vec<_>>()}));
     }
     let mut seen = BTreeSet::new();
+    // a decision that changed across the restart is the root cause of whatever the shards show
+    // afterwards (writes of an "aborted" transaction, split state): report the cause only
+    let root_only = sim.found.iter().any(|f| f.sig.starts_with("decision-changed-across-coordinator-restart"));
     for f in sim.found {
+        if root_only && !f.sig.starts_with("decision-changed-across-coordinator-restart") {
+            continue;
+        }
         if !seen.insert(f.sig.clone()) {
             continue;
         }
